@@ -84,6 +84,7 @@ def hook(ev, args):
             (writes if mode and any(c in str(mode) for c in 'wax+') else reads).append(p)
 sys.addaudithook(hook)
 work = sys.argv[2]
+START_CWD = os.getcwd()
 from gtwrap.pybind_wrapper import PybindWrapper
 from gtwrap.matlab_wrapper import MatlabWrapper
 res = {}
@@ -133,7 +134,9 @@ try:
     res['multi/pybind'] = hashlib.sha256(open(os.path.join(out, 'multi.cpp'), 'rb').read()).hexdigest()
 except Exception as e:
     res['multi/pybind'] = 'EXC %s' % type(e).__name__
-print(json.dumps({'digests': res, 'reads': sorted(set(reads)), 'writes': sorted(set(writes))}))
+gone = sorted(p for p in set(writes) if not os.path.exists(p))
+res['cwd-unchanged'] = str(os.getcwd() == START_CWD)
+print(json.dumps({'digests': res, 'reads': sorted(set(reads)), 'writes': sorted(set(writes)), 'gone': gone}))
 '''
 
 
@@ -171,6 +174,11 @@ def run_config(case):
     for p in data['writes']:
         if not p.startswith(outroot + os.sep):
             viol.append({'sig': 'C14|audit|writes-outside-outputs', 'msg': 'a wrapper run opened %s for writing (outputs live under %s)' % (p, outroot)})
+    if data['digests'].get('cwd-unchanged') != 'True':
+        viol.append({'sig': 'C14|audit|working-directory-changed', 'msg': 'the wrapper runs left the process in another working directory'})
+    for p in data.get('gone', []):
+        viol.append({'sig': 'C14|audit|scratch-file-next-to-the-outputs', 'msg': 'a wrapper run wrote %s, which is not one of its outputs (it no longer '
+                     'exists when the run is over): two runs into the same directory would share it' % p})
     for p in data['reads']:
         if not p.startswith(allowed_read):
             viol.append({'sig': 'C14|audit|reads-unrelated-file', 'msg': 'a wrapper run read %s' % p})
@@ -222,6 +230,56 @@ def run_history(case):
     blob = last[1] if last[0] == 'py' else json.dumps(sorted(last[1].items()))
     state = (tuple(shared._serializing_classes), tuple(sorted(getattr(shared.xml_parser, '_memory', {}).items())))
     return {'viol': [], 'digest': hashlib.sha256(blob.encode()).hexdigest(), 'state': repr(state)}
+
+
+def run_long_reuse(case):
+    """One PybindWrapper wraps every corpus module, three times round; every output must equal that of a fresh wrapper."""
+    from gtwrap.pybind_wrapper import PybindWrapper
+    import gc
+    texts = corpus_texts()
+    xml = _xml_dir()
+
+    def mk():
+        return PybindWrapper(module_name='mod', top_module_namespaces=[''], use_boost_serialization=True, ignore_classes=[''],
+                             module_template=gen.PY_TEMPLATE, xml_source=xml)
+    ref = {n: gen.pybind(t, wrapper=mk()) for n, t in texts.items()}
+    shared = mk()
+    viol = []
+    n = 0
+    cwd0 = os.getcwd()
+    for rnd in range(3):
+        for name in sorted(texts, reverse=bool(rnd % 2)):
+            out = gen.pybind(texts[name], wrapper=shared)
+            gc.collect()
+            n += 1
+            if out != ref[name]:
+                viol.append({'sig': 'C14|history|long-reuse-of-one-wrapper|pybind',
+                             'msg': 'after %d wraps with one PybindWrapper the output for module %s differs from that of a fresh wrapper' % (n, name)})
+                return {'viol': viol, 'n': n}
+    # the working directory is the caller's: relative paths, several wraps in one process
+    from gtwrap.matlab_wrapper import MatlabWrapper
+    wd = gen.mkdtemp('c14r')
+    try:
+        os.chdir(wd)
+        for i, name in enumerate(('class', 'inherit')):
+            with open('m%d.i' % i, 'w') as f:
+                f.write(texts[name])
+            MatlabWrapper(module_name='m%d' % i, ignore_classes=['']).wrap(['m%d.i' % i], path='out%d' % i)
+            if os.getcwd() != wd:
+                viol.append({'sig': 'C14|history|working-directory-changed|matlab', 'msg': 'MatlabWrapper.wrap left the process in %s (was %s)' % (os.getcwd(), wd)})
+                break
+            PybindWrapper(module_name='m%d' % i, top_module_namespaces=[''], ignore_classes=[''], module_template=gen.PY_TEMPLATE).wrap(['m%d.i' % i], 'p%d.cpp' % i)
+            if os.getcwd() != wd:
+                viol.append({'sig': 'C14|history|working-directory-changed|pybind', 'msg': 'PybindWrapper.wrap left the process in %s' % os.getcwd()})
+                break
+        if not viol and sorted(x for x in os.listdir(wd)) != ['m0.i', 'm1.i', 'out0', 'out1', 'p0.cpp', 'p1.cpp']:
+            viol.append({'sig': 'C14|history|relative-paths|outputs-misplaced', 'msg': 'two wraps with relative paths left %s' % sorted(os.listdir(wd))})
+    except Exception as e:
+        viol.append({'sig': 'C14|history|relative-paths|%s' % type(e).__name__, 'msg': 'two wraps with relative paths in one process: %s: %s' % (type(e).__name__, e)})
+    finally:
+        os.chdir(cwd0)
+        shutil.rmtree(wd, ignore_errors=True)
+    return {'viol': viol, 'n': n}
 
 
 def run_dir_history(case):
@@ -553,6 +611,8 @@ def explore_schedules(case):
 
 
 def replay(case):
+    if case.get('mode') == 'long-reuse':
+        return run_long_reuse(case)['viol']
     if case.get('mode') == 'dir-history':
         return run_dir_history(case)['viol']
     if case.get('kind') in ('pybind', 'matlab') and 'bound' in case:
@@ -634,6 +694,7 @@ def run(ctx):
                                   % (c['ops'], str(r['digest'])[:60], str(fresh.get(refkey))[:16]), c)
         samples.append({'history': hcases[len(hcases) // 2]['ops']})
         ctx.map(run_dir_history, [{'mode': 'dir-history'}], chunksize=1)
+        ctx.map(run_long_reuse, [{'mode': 'long-reuse'}], chunksize=1)
         transitions += 3
         traces += 3
         # ---------------- (3) schedules
